@@ -32,6 +32,7 @@ class Opts:
         self.mixed = True
         self.nested_sequence_occurs = False      # recorded finding when enabled: (a, (b, c)*) loses the group occurrence
         self.nested_groups = True
+        self.attr_namespaces = True              # xmlns:p declarations on an element + prefixed attributes
         self.__dict__.update(kw)
 
 
@@ -61,7 +62,17 @@ def dtd_specs(draw, opts=None):
             content = {"k": "mixed", "names": draw(st.lists(st.sampled_from(later), min_size=1, max_size=min(3, len(later)), unique=True))}
         else:
             content = {"k": kind}
-        elements[nm] = {"content": content, "attrs": draw(_attrs())}
+        attrs = draw(_attrs())
+        nsdecls = []
+        if o.attr_namespaces and draw(st.integers(0, 3)) == 0:
+            nsdecls = draw(st.lists(st.sampled_from([("a", "urn:attr:a"), ("b", "urn:attr:b"), ("m", "urn:attr:m"), ("xl", "http://www.w3.org/1999/xlink")]),
+                                    min_size=1, max_size=3, unique=True))
+            first = draw(st.booleans())          # declared before or after the ordinary attributes
+            for a in attrs:
+                if a["type"] not in ("ID", "IDREF", "IDREFS") and draw(st.booleans()):
+                    a["prefix"] = draw(st.sampled_from(nsdecls))[0]
+            nsdecls = {"decls": [list(x) for x in nsdecls], "first": first}
+        elements[nm] = {"content": content, "attrs": attrs, "nsdecls": nsdecls or None}
     # the text that follows an ANY child inside mixed content is moved into that child (recorded finding, as C02 mixed-tail-...)
     for e in elements.values():
         c = e["content"]
@@ -131,6 +142,10 @@ def qname(spec, name):
     return f"{ns['prefix']}:{name}" if ns and ns["kind"] == "prefix" else name
 
 
+def attr_qname(a):
+    return f"{a['prefix']}:{a['name']}" if a.get("prefix") else a["name"]
+
+
 def render_dtd(spec):
     out = []
 
@@ -157,10 +172,16 @@ def render_dtd(spec):
             ns = spec["ns"]
             att = "xmlns" if ns["kind"] == "default" else f"xmlns:{ns['prefix']}"
             out.append(f'<!ATTLIST {qname(spec, nm)} {att} CDATA #FIXED "{ns["uri"]}">')
+        nsd = e.get("nsdecls")
+        decl_lines = [f'<!ATTLIST {qname(spec, nm)} xmlns:{p} CDATA #FIXED "{u}">' for p, u in (nsd["decls"] if nsd else [])]
+        if nsd and nsd["first"]:
+            out.extend(decl_lines)
         for a in e["attrs"]:
             tp = "(" + "|".join(a["type"]) + ")" if isinstance(a["type"], list) else a["type"]
             dflt = a["mode"] if a["mode"] in ("#REQUIRED", "#IMPLIED") else ('#FIXED ' if a["mode"] == "#FIXED" else "") + '"' + a["value"] + '"'
-            out.append(f"<!ATTLIST {qname(spec, nm)} {a['name']} {tp} {dflt}>")
+            out.append(f"<!ATTLIST {qname(spec, nm)} {attr_qname(a)} {tp} {dflt}>")
+        if nsd and not nsd["first"]:
+            out.extend(decl_lines)
     return "\n".join(out) + "\n"
 
 
@@ -173,12 +194,16 @@ class InstanceGen:
         ns = self.spec["ns"]
         return "{%s}%s" % (ns["uri"], name) if ns else name
 
+    def nsmap_of(self, name):
+        nsd = self.spec["elements"][name].get("nsdecls")
+        return {p: u for p, u in nsd["decls"]} if nsd else None
+
     def document(self):
         ns = self.spec["ns"]
         nsmap = None
         if ns:
             nsmap = {None if ns["kind"] == "default" else ns["prefix"]: ns["uri"]}
-        root = etree.Element(self.tag(self.spec["root"]), nsmap=nsmap)
+        root = etree.Element(self.tag(self.spec["root"]), nsmap={**(nsmap or {}), **(self.nsmap_of(self.spec["root"]) or {})} or None)
         self.fill(root, self.spec["root"], 0)
         for el, a in self.idref_slots:
             if self.ids and self.d(st.booleans()):
@@ -191,7 +216,10 @@ class InstanceGen:
     def fill(self, el, name, depth):
         d = self.d
         e = self.spec["elements"][name]
+        uris = dict(map(tuple, e["nsdecls"]["decls"])) if e.get("nsdecls") else {}
         for a in e["attrs"]:
+            if a.get("prefix"):
+                a = dict(a, name="{%s}%s" % (uris[a["prefix"]], a["name"]))
             if a["type"] == "ID":
                 if a["mode"] == "#REQUIRED" or d(st.booleans()):
                     v = f"id{len(self.ids) + 1}"
@@ -237,7 +265,7 @@ class InstanceGen:
 
     def child(self, parent, name, depth):
         self.budget -= 1
-        ch = etree.SubElement(parent, self.tag(name))
+        ch = etree.SubElement(parent, self.tag(name), nsmap=self.nsmap_of(name))
         self.fill(ch, name, depth + 1)
         return ch
 
@@ -314,6 +342,8 @@ def features(spec):
         f.add("content-" + c["k"])
         if c["k"] == "children":
             walk(c["model"])
+        if e.get("nsdecls"):
+            f.add("attr-namespaces")
         for a in e["attrs"]:
             f.add("attr-" + ("enum" if isinstance(a["type"], list) else a["type"]))
             f.add("attr-mode-" + a["mode"].strip("#").lower())
